@@ -17,3 +17,9 @@ mod p1_common;
 #[cfg(any(verif_all, verif_c23))]
 #[path = "/verif/harness/ntp-proto/c23.rs"]
 mod c23;
+#[cfg(any(verif_all, verif_c24))]
+#[path = "/verif/harness/ntp-proto/c24.rs"]
+mod c24;
+#[cfg(any(verif_all, verif_c25))]
+#[path = "/verif/harness/ntp-proto/c25.rs"]
+mod c25;
